@@ -243,29 +243,31 @@ Section Api.
 
   (* clear_markings: the EXPANDED markings are edited in place:
      `granular_marking['marking_ref'] = ''` *)
-  Fixpoint clear_loop (sels : list ustring) (ems : list val) (h : heap) : option heap :=
+  Fixpoint clear_loop (mr lg : bool) (sels : list ustring) (ems : list val) (h : heap) : option heap :=
     match ems with
     | [] => Some h
     | VR d :: rest =>
       let mine := atoms_str (selectors_of h (VR d)) in
       if existsb (fun s => mem_ustr s mine) sels then
-        let h1 := if truthy h (get_or_none h (VR d) (u "marking_ref"))
+        let h1 := if truthy h (get_or_none h (VR d) (u "marking_ref")) && mr
                   then set_item h d (u "marking_ref") (VA (AStr [])) else Some h in
         match h1 with
         | None => None
         | Some h1 =>
-          let h2 := if truthy h1 (get_or_none h1 (VR d) (u "lang"))
+          let h2 := if truthy h1 (get_or_none h1 (VR d) (u "lang")) && lg
                     then set_item h1 d (u "lang") (VA (AStr [])) else Some h1 in
           match h2 with
           | None => None
-          | Some h2 => clear_loop sels rest h2
+          | Some h2 => clear_loop mr lg sels rest h2
           end
         end
-      else clear_loop sels rest h
-    | VA _ :: rest => clear_loop sels rest h
+      else clear_loop mr lg sels rest h
+    | VA _ :: rest => clear_loop mr lg sels rest h
     end.
 
-  Definition granular_clear (obj selectors : val) (h : heap) : heap * res :=
+  (* clear_markings(obj, selectors, marking_ref=True, lang=True): the two flags say which of the
+     two keys of a matching expanded marking is blanked *)
+  Definition granular_clear_f (mr lg : bool) (obj selectors : val) (h : heap) : heap * res :=
     let sels := atoms_str (convert_to_list selectors h) in
     let old := get_or_none h obj (u "granular_markings") in
     if negb (truthy h old) then (h, RVal obj)
@@ -274,10 +276,12 @@ Section Api.
         let ems := match list_items h1 e with Some xs => xs | None => [] end in
         if negb (existsb (fun m => existsb (fun s => mem_ustr s (atoms_str (selectors_of h1 m))) sels) ems)
         then (h1, RExc "MarkingNotFoundError")
-        else match clear_loop sels ems h1 with
+        else match clear_loop mr lg sels ems h1 with
              | None => (h1, RExc "TypeError")
              | Some h2 => bindv (compress_markings e h2) (fun c h3 => new_version_gm obj c h3)
              end).
+
+  Definition granular_clear : val -> val -> heap -> heap * res := granular_clear_f true true.
 
   (* Python == on two values, by deep value *)
   Definition val_eqb (h : heap) (a b : val) : bool :=
@@ -326,8 +330,10 @@ Section Api.
         end).
 
   (* set_markings = add_markings(clear_markings(obj, selectors), marking, selectors) *)
-  Definition granular_set (obj marking selectors : val) (h : heap) : heap * res :=
-    bindv (granular_clear obj selectors h) (fun o h1 => granular_add o marking selectors h1).
+  Definition granular_set_f (mr lg : bool) (obj marking selectors : val) (h : heap) : heap * res :=
+    bindv (granular_clear_f mr lg obj selectors h) (fun o h1 => granular_add o marking selectors h1).
+
+  Definition granular_set : val -> val -> val -> heap -> heap * res := granular_set_f true true.
 
   (* ---------------- stix2/markings/object_markings.py ---------------- *)
   Fixpoint dedupe_atoms (vs : list val) (seen : list ustring) : list val :=
@@ -398,6 +404,54 @@ Section Api.
           if is_nil custom then (h, RVal obj)
           else new_version obj (map (fun kv => (fst kv, VA ANone)) custom) h
       | _ => (h, RExc "KeyError")
+      end
+    end.
+
+  (* ---------------- stix2/utils.py: deduplicate ---------------- *)
+  (* `unique_objs[(obj['id'], ver)] = obj` (or `[obj['id']]` when there is no version), then
+     `list(unique_objs.values())`: a new list of (some of) the SAME objects, the last one per key.
+     An object's version is a datetime, a dict's a str: they never collide (the flag).            *)
+  Definition dkey := (ustring * option atom * bool)%type.
+
+  Definition dkey_eqb (a b : dkey) : bool :=
+    ustr_eqb (fst (fst a)) (fst (fst b)) &&
+    match snd (fst a), snd (fst b) with
+    | Some x, Some y => atom_eqb x y
+    | None, None => true
+    | _, _ => false
+    end && Bool.eqb (snd a) (snd b).
+
+  Fixpoint dins (k : dkey) (v : val) (t : list (dkey * val)) : list (dkey * val) :=
+    match t with
+    | [] => [(k, v)]
+    | (k', v') :: r => if dkey_eqb k k' then (k', v) :: r else (k', v') :: dins k v r
+    end.
+
+  Fixpoint dedup_loop (h : heap) (xs : list val) (t : list (dkey * val)) : option (list (dkey * val)) :=
+    match xs with
+    | [] => Some t
+    | x :: r =>
+      match mapping_get h x (u "id") with
+      | Some (VA (AStr i)) =>
+        let m := get_or_none h x (u "modified") in
+        let ver := if truthy h m then m else get_or_none h x (u "created") in
+        let k := match ver with
+                 | VA ANone => (i, None, false)
+                 | VA a => (i, Some a, is_obj h x)
+                 | VR _ => (i, None, true)
+                 end in
+        dedup_loop h r (dins k x t)
+      | _ => None
+      end
+    end.
+
+  Definition deduplicate (lst : val) (h : heap) : heap * res :=
+    match list_items h lst with
+    | None => (h, RExc "TypeError")
+    | Some xs =>
+      match dedup_loop h xs [] with
+      | None => (h, RExc "KeyError")
+      | Some t => let (h1, l) := alloc h (NList (map snd t)) in (h1, RVal (VR l))
       end
     end.
 
